@@ -16,11 +16,11 @@ Your private scratch git worktree of the repository is {wt} (a detached checkout
 What kind of change: a plausible maintainer mistake (a refactor gone subtly wrong, an off-by-one, a dropped lock/step, a wrong constant, two sites that each look fine alone) in the library code under Source/Lib that makes the property false. It must need something SPECIFIC to manifest — a particular interleaving, a particular size/configuration, a multi-step sequence of operations, an unusual input, a boundary value, or two cooperating sites — NOT something that any ordinary use (e.g. the default `SvtAv1EncApp` encode of a few frames at a common size) would expose at once. {variant and 'Choose a change of a DIFFERENT kind / in a different function than the most obvious one.' or ''}
 
 Requirements you must verify yourself:
-1. With your change applied the library still builds:  cmake -G Ninja -S {wt} -B {wt}/_seed/build -DCMAKE_BUILD_TYPE=Release -DBUILD_TESTING=ON -DBUILD_SHARED_LIBS=ON -DCMAKE_OUTPUT_DIRECTORY={wt}/_seed/bin && ninja -C {wt}/_seed/build   (about 2-3 minutes on this machine; it is busy, be patient).
+1. With your change applied the library still builds:  cmake -G Ninja -S {wt} -B {wt}/_seed/build -DCMAKE_BUILD_TYPE=Release -DBUILD_TESTING=ON -DBUILD_SHARED_LIBS=ON -DCMAKE_OUTPUT_DIRECTORY={wt}/_seed/bin && ninja -C {wt}/_seed/build SvtAv1EncApp SvtAv1DecApp SvtAv1ApiTests   (about 2-3 minutes on this machine; it is busy, be patient. Build these named targets, not `all`: the default target also tries to git-clone libaom for the e2e tests, which fails offline and is unrelated).
 2. The existing pinned tests still pass: run  LD_LIBRARY_PATH={wt}/_seed/bin {wt}/_seed/bin/SvtAv1ApiTests --gtest_filter='EncParam*:EncApi*'  — the expected baseline result (also WITHOUT your change) is exactly 42 tests PASSED and 10 FAILED (those 10 fail on the pinned tree too: EncParamIntraPeridLenTest, EncParamIntraRefreshTypeTest, EncParamHierarchicalLvlTest, EncParamEnableWarpedMotionTest, EncParamSearchAreaWidthTest, EncParamSearchAreaHeightTest, EncParamSceneChangeDectTest, EncParamMinQPAllowTest, EncParamEnableAltRefsTest, EncParamAltRefsFramesNumTest). The same 42 must pass with your change.
 3. A demonstration — a small C program or shell script under {wt}/_seed/demo/ (with a run.sh that builds and runs it against a given worktree path as $1, exit code 0 = property holds, non-zero = property violated) — that FAILS with your change and PASSES on the unchanged tree. It may link the built library, compile individual library source files directly (e.g. Source/Lib/Common/Codec/EbSystemResourceManager.c with EbThreads.c EbMalloc.c EbLog.c and -I Source/API -I Source/Lib/Common/Codec), or drive SvtAv1EncApp / SvtAv1DecApp (in _seed/bin; SvtAv1DecApp can decode the encoder's .ivf output, `SvtAv1EncApp -i in.yuv -w W -h H -n N -b out.ivf -o recon.yuv`, raw yuv420p input you generate yourself). Keep demo inputs small (e.g. 64x64..256x128, few frames) so it runs in under a minute. Confirm both outcomes (use `git stash` or `git diff > patch; git checkout .` to test the unchanged tree, rebuilding as needed).
 
-Note: the pinned tree has some pre-existing defects (e.g. some unusual configurations hang or crash even without any change). Your demo must PASS on the unchanged tree, so stay away from configurations that already misbehave.
+Note: the pinned tree has some pre-existing defects, e.g.: pictures exactly one superblock (64 px) wide with height >= 128 hang; `--hierarchical-levels 5 --lp 2` hangs; rate-control modes 1/2 are non-deterministic; svt_av1_enc_set_parameter returns on a rejected configuration with an internal mutex still held (a second set_parameter on the same handle then blocks); several API functions crash on a NULL handle; svt_svt_enc_init_parameter leaves a few fields (render_width/height, is_16bit_pipeline, rc stats buffers, enable_qp_scaling_flag, enable_denoise_flag, in_loop_me_flag, vbv_bufsize, pred_struct[], manual_pred_struct_entry_num) unassigned; the application-private pointer is not carried to packets; the documented ranges of some parameters disagree with what the validation accepts; --keyint 0 gives INTRA_ONLY frames. Your demo must PASS on the unchanged tree, so stay away from behaviour that already misbehaves, and choose a change whose effect is NEW.
 
 Deliverables, all under {wt}/_seed/out/ :
  - patch.diff   (output of `git -C {wt} diff -- Source` with ONLY your library change; no build outputs)
